@@ -534,7 +534,7 @@ func (s *srvConn) serve(cfg *negCfg, r *negRec) {
 				r.Order = append(r.Order, "enable requested although this stream's features do not offer stream management")
 			}
 			r.EnableSeen++
-			a := cfg.pick("enable", "enabled-resume-true", "enabled-resume-false", "enabled-no-resume", "failed", "failed-no-condition", "unexpected", "close", "malformed", "enabled-unclosed")
+			a := cfg.pick("enable", "enabled-resume-true", "enabled-resume-false", "enabled-no-resume", "failed", "failed-no-condition", "unexpected", "close", "malformed", "enabled-unclosed", "enabled-resume-true-no-id", "enabled-resume-true-empty-id")
 			ok := strings.HasPrefix(a, "enabled") && a != "enabled-unclosed"
 			r.answer("enable", a, ok)
 			r.EnableAnswer = a
@@ -549,6 +549,11 @@ func (s *srvConn) serve(cfg *negCfg, r *negRec) {
 				s.send(fmt.Sprintf("<enabled xmlns='%s' resume='false'/>", nsSM))
 			case "enabled-no-resume":
 				s.send(fmt.Sprintf("<enabled xmlns='%s'/>", nsSM))
+			case "enabled-resume-true-no-id":
+				// resumption allowed, and no id to resume with: there is nothing to present later
+				s.send(fmt.Sprintf("<enabled xmlns='%s' resume='true'/>", nsSM))
+			case "enabled-resume-true-empty-id":
+				s.send(fmt.Sprintf("<enabled xmlns='%s' id='' resume='1'/>", nsSM))
 			case "failed":
 				s.send(fmt.Sprintf("<failed xmlns='%s'><unexpected-request xmlns='urn:ietf:params:xml:ns:xmpp-stanzas'/></failed>", nsSM))
 			case "failed-no-condition":
